@@ -1,7 +1,7 @@
 """Seams: every source of nondeterminism csvpath reads goes through here.
 
   clock      datetime.now()/utcnow()/today()  -> SimClock
-  timing     time.time()/perf_counter_ns()/ctime() inside csvpath modules -> SimClock
+  timing     time.time()/perf_counter[_ns]()/monotonic() inside csvpath modules -> SimClock (ticking with it)
   randomness uuid.uuid4()                     -> PRNG derived from the scenario seed
   dir order  os.listdir()                     -> sorted, then permuted by a PRNG
                                                  derived from the scenario's salt
@@ -108,17 +108,19 @@ class _TimeShim(types.ModuleType):
     def __init__(self):
         super().__init__("time")
 
+    # (like datetime.now(), a read moves the clock on by SimClock.step when the scenario asked for a ticking clock: an
+    # elapsed time measured between two reads is then non-zero)
     def time(self):
-        return SimClock.peek().timestamp()
+        return SimClock.read().timestamp()
 
     def perf_counter_ns(self):
-        return int(SimClock.peek().timestamp() * 1_000_000_000)
+        return int(SimClock.read().timestamp() * 1_000_000_000)
 
     def perf_counter(self):
-        return SimClock.peek().timestamp()
+        return SimClock.read().timestamp()
 
     def monotonic(self):
-        return SimClock.peek().timestamp()
+        return SimClock.read().timestamp()
 
     def ctime(self, secs=None):
         return "SIM-CTIME"
